@@ -1450,6 +1450,45 @@ func (g *G) stmt() {
 	}
 }
 
+// tupleBlock emits assignments with several targets, some of them elements of a slice or a map, some of them the
+// same place twice, some of them the variable another target's index reads: Go evaluates the index operands on the left
+// and the values on the right first, then assigns left to right. Nothing on the right reads ticks (the order of a
+// variable read and a call in one statement is not specified), and the index variables stay inside the slice.
+func (g *G) tupleBlock() {
+	g.meta.feat("tupleblock")
+	g.line("ts := []int{1, 2, 3, 4}")
+	g.line("tm := map[int]int{0: 10, 1: 11}")
+	g.line("ti, tj := 0, 1")
+	places := []string{"ti", "tj", "ts[ti]", "ts[tj]", "ts[0]", "ts[1]", "ts[3]", "tm[ti]", "tm[tj]", "tm[0]", "tm[2]",
+		"ts[idx(tick(), len(ts))]", "pickInts(ts)[tj]", "pickMap(tm)[ti]", "_"}
+	values := []string{"ti", "tj", "ts[0]", "ts[ti]", "tm[0]", "tm[tj]", "tick()", "ti + 1", "ts[tj] * 2", "len(tm)", "7", "-3"}
+	for n, k := 0, rx.Range(g.rt, "ntuples", 2, 5); n < k; n++ {
+		w := rx.Range(g.rt, "tuplewidth", 2, 3)
+		var lhs, rhs []string
+		blanks := 0
+		for i := 0; i < w; i++ {
+			pl := places[rx.Uniform(g.rt, len(places), "tupleplace")]
+			if i > 0 && rx.Chance(g.rt, "tuplesame", 1, 4) {
+				pl = lhs[rx.Uniform(g.rt, len(lhs), "tuplewhich")] // the same place again
+			}
+			if pl == "_" {
+				blanks++
+			}
+			val := values[rx.Uniform(g.rt, len(values), "tupleval")]
+			if pl == "ti" || pl == "tj" {
+				val = "idx(" + val + ", len(ts))"
+			}
+			lhs, rhs = append(lhs, pl), append(rhs, val)
+		}
+		if blanks == w {
+			lhs[0] = "ts[ti]"
+		}
+		g.line("%s = %s", strings.Join(lhs, ", "), strings.Join(rhs, ", "))
+		g.line("fmt.Println(\"tuple\", ti, tj, ts, len(tm), tm[0], tm[1], tm[2], tm[3])")
+	}
+	g.line("fmt.Println(\"tuple ticks\", ticks)")
+}
+
 // ---- top level --------------------------------------------------------------------------------
 
 func (g *G) genStruct(i int) {
@@ -1706,6 +1745,9 @@ func Program(rt *rapid.T, p Profile) (*oracle.Program, *Meta) {
 		g.line("pickMap(sm)[int(ikey())] += 5")
 		g.line("pickMap(sm)[ikey()+1]++")
 		g.line("fmt.Println(\"side\", ticks, sd, len(sm), sm[1], sm[2])")
+	}
+	if rapid.Bool().Draw(g.rt, "tupleblock") {
+		g.tupleBlock()
 	}
 	if noteLog {
 		g.line("fmt.Println(\"notes\", initLog)")
